@@ -16,7 +16,7 @@ func init() {
 		Doc: "sibling implementations agree: (a) thrift.GetBinaryMessageHeaderAndFooter and thrift.WrapBinaryBody issue the same sequence of BinaryProtocol writer calls with the same parameters (precomputed header/footer = wrapped form); " +
 			"(b) Set and Get of caching.TrieTree and caching.HashMap derive the slot through the same helper functions (hash, index mapping, slot address); (c) each Get accepts an entry only after a full string equality between the stored key and the requested key",
 		Configs: "NP",
-		Floor:   map[string]int{"N": 5, "P": 5},
+		Floor:   map[string]int{"N": 4, "P": 4},
 		Run:     runSeqAgree,
 	})
 }
